@@ -277,6 +277,7 @@ func c07Type(t *tape.Tape) *simType {
 }
 
 func runC07(r *core.Run) {
+	resetLibrary()
 	t := r.T
 	if r.Scenario != nil {
 		sc := &c07Scenario{}
